@@ -90,11 +90,14 @@ class LineProc:
         self.last_death = None
         self.deaths = 0
         self.buf = b""
+        self.init_lines = []      # requests replayed after every (re)start of the child (their replies are dropped)
 
     def start(self):
         self.p = subprocess.Popen(self.argv, cwd=self.cwd, env=self.env, stdin=subprocess.PIPE,
                                   stdout=subprocess.PIPE, stderr=subprocess.PIPE)
         self.buf = b""
+        for l in self.init_lines:
+            self._exchange(l, 60.0)
 
     def kill(self):
         if self.p is not None:
@@ -108,7 +111,9 @@ class LineProc:
     def ask_raw(self, line, timeout=None):
         if self.p is None or self.p.poll() is not None:
             self.start()
-        timeout = timeout or self.timeout
+        return self._exchange(line, timeout or self.timeout)
+
+    def _exchange(self, line, timeout):
         try:
             self.p.stdin.write(line.encode() + b"\n")
             self.p.stdin.flush()
@@ -160,6 +165,29 @@ def driver(timeout=30.0):
 
 def pdlv(timeout=60.0):
     return LineProc([PDLV_BIN], timeout=timeout)
+
+
+def use_translated_grammar(mdl, run, report=True):
+    """Translate the pest grammar embedded in /repo's parser.rs (vlib/pestgrammar.py) and make the model parser
+    run it; compare it with the transcribed grammar of Pdlv.Syntax.  Returns (ok, info)."""
+    from . import pestgrammar as PG
+    info = {"source": "pdl-compiler/src/parser.rs #[grammar_inline]"}
+    try:
+        rules = PG.translate(PG.parser_rs(REPO))
+    except (PG.GrammarError, OSError) as e:
+        info.update(translated=False, error=str(e))
+        run.cov["grammar_translation"] = info
+        if report:
+            run.violation("corr", "the grammar in parser.rs cannot be translated: %s" % e,
+                          {"corr": "translation:C12/grammar", "error": str(e)}, found_input=False)
+        return False, info
+    req = {"op": "grammar", "rules": rules, "use": True}
+    mdl.init_lines = [json.dumps(req)]
+    mdl.kill()
+    r = mdl.ask({"op": "grammar", "rules": rules, "use": True}, timeout=60) or {}
+    info.update(translated=True, rules=len(rules), equal_to_transcribed=bool(r.get("equal")), differing_rules=r.get("diff", []))
+    run.cov["grammar_translation"] = info
+    return bool(r.get("equal")), info
 
 
 # ---------------------------------------------------------------------------
